@@ -4,6 +4,7 @@
 (*                                                                         *)
 (* State: one instance and its tracked set `fs`.  Actions mirror the code  *)
 (* paths of apischema/fields.py and apischema/dataclasses.py:              *)
+(*   ConstructPos(k) cls(v1, .., vk): the same through positional arguments *)
 (*   Construct(G)   cls(G...): patched __new__  (fs := {}), then patched     *)
 (*                  __init__ (fs := given - InitVars + always-set fields)  *)
 (*   Deser(K)       deserialize(cls, {k: .. for k in K}) = Construct(K)    *)
@@ -64,6 +65,17 @@ Construct(G) ==
   /\ alive' = TRUE /\ UNCHANGED shape
   /\ Log([op |-> "construct", names |-> G])
 
+\* positional construction cls(v1, .., vk): the first k parameters of __init__ in signature order
+\* (InitVar pseudo-fields keep their place in the signature, init=False fields are not parameters)
+InitSeq(s) == SelectSeq(s.fields, LAMBDA f : f.kind # "noinit")
+ConstructPos(k) ==
+  LET G == {InitSeq(shape)[i].name : i \in 1..k} IN
+  /\ ~alive /\ k \in 1..Len(InitSeq(shape)) /\ Required(shape) \subseteq G
+  /\ IF Exact(shape) THEN fs' = AfterInit(shape, G) /\ lo' = fs'
+     ELSE fs' = Stored(shape) /\ lo' = G \ InitVars(shape)
+  /\ alive' = TRUE /\ UNCHANGED shape
+  /\ Log([op |-> "construct_pos", names |-> G])
+
 Deser(K) ==
   /\ ~alive /\ K \subseteq InitArgs(shape) /\ Required(shape) \subseteq K
   /\ IF Exact(shape) THEN fs' = AfterInit(shape, K) /\ lo' = fs'
@@ -94,6 +106,7 @@ Replace(C) ==
   /\ UNCHANGED <<shape, alive>> /\ Log([op |-> "replace", names |-> C])
 
 Next == \/ \E G \in SUBSET Names(shape) : Construct(G) \/ Deser(G)
+        \/ \E k \in 1..Len(shape.fields) : ConstructPos(k)
         \/ \E a \in Names(shape) : SetAttr(a)
         \/ \E F \in SUBSET Names(shape) : \E ow \in BOOLEAN : SetFields(F, ow)
         \/ \E F \in SUBSET Names(shape) : Unset(F) \/ Replace(F)
